@@ -12,6 +12,9 @@ CHECKS = {
     'C20': dict(category='exploration', technique='exhaustive enumeration of domains, factor shapes/representations and all binding call sequences up to depth 3 against a dictionary model',
                 text='All small FiniteDomain/RangeDomain instances, every (domain sizes, weight shape, representation) combination up to rank 3 and every sequence of <=3 binding calls over a 71-call alphabet on FGG and FactorGraph are executed on the real classes and compared with list/dict semantics written in plain Python.',
                 note='Trusted: the dictionary model of bindings. Rejection is any of ValueError/KeyError/TypeError. Bounds as in evidence.coverage.bounds.', design='3/C20'),
+    'C16': dict(category='model_checking', technique='explicit-state BFS over API call histories of the real classes (canonical-snapshot dedup), reference dictionary model + invariants + atomicity + copy independence on every transition, == on all state pairs',
+                text='Breadth-first search over all call histories up to depth 3 (FactorGraph 2; thorough 4/3) for Graph, FactorGraph, HRG and FGG over alphabets of 22-58 concrete calls including calls that must fail; every transition executes the real method and is compared with a plain-Python reference model (acceptance and resulting nodes/edges/ext/rules/start/domains/factors), the well-formedness invariants, atomicity of failing calls, copy equality and copy independence; == is evaluated on all pairs of visited states (reflexive, symmetric, partition, distinguishes structural differences).',
+                note='The model is the specification of acceptance; where acceptance depends on whether a no-longer-used label is still remembered the model allows either. Every explored trace is an implementation trace. Bounds in evidence.coverage.per_object.', design='3/C16'),
 }
 
 ALL = ['C%02d' % i for i in range(1, 21)]
